@@ -689,4 +689,7 @@ func TestVerifC08(t *testing.T) {
 
 	// (K) regression streams of the repaired findings: empty Bytes values through every API path, invalid UTF-8
 	r.regressionStreams()
+
+	// (L) independence of successive and concurrent Marshal calls, of decoded values from their input
+	r.independenceCases()
 }
